@@ -52,11 +52,41 @@ impl Judge<'_> {
         desc: serde_json::Value,
     ) -> (bool, bool) {
         let ev = self.ev;
+        dusk_plonk::verif::start_challenge_log();
         let real = match verifier {
             Some(v) => common::real_decide_with(v, pbytes, pi, common::to_plonk_version(version)),
             None => common::real_decide(vbytes, pbytes, pi, common::to_plonk_version(version)),
         };
+        let real_challenges = dusk_plonk::verif::take_challenge_log();
         let reference = rv::decide(vbytes, pbytes, pi, version);
+        // transcript monitor: every challenge the real verifier derived must be
+        // the one the specified transcript yields
+        if !real_challenges.is_empty() {
+            if let (Ok(vk), Ok(pp)) = (rv::parse_verifier(vbytes), rv::parse_proof(pbytes)) {
+                if pi.len() == vk.pi_rows.len() {
+                    let ch = rv::challenges(&vk, &pp, pi, version);
+                    let want = [("beta", ch.beta), ("gamma", ch.gamma), ("alpha", ch.alpha), ("range", ch.range), ("logic", ch.logic),
+                        ("fixed", ch.fixed), ("var", ch.var), ("z", ch.z), ("v", ch.v), ("v_w", ch.v_w), ("u", ch.u)];
+                    self.ev.bucket("challenge_logs_compared");
+                    for (name, value) in &real_challenges {
+                        match want.iter().find(|(n, _)| n == name) {
+                            Some((_, w)) if w == value => {}
+                            _ => {
+                                self.ev.violation(
+                                    &format!("{}:challenge-differs-from-specified-transcript:{}", self.prefix, name),
+                                    json!({"kind": kind, "version": format!("{version:?}"), "challenge": name, "real": crate::util::hx(value),
+                                        "proof": hex::encode(pbytes), "verifier": hex::encode(vbytes), "pi": crate::util::hxs(pi)}),
+                                );
+                                break;
+                            }
+                        }
+                    }
+                    if real_challenges.len() != 11 && real.accepts() {
+                        self.ev.violation(&format!("{}:accepted-with-{}-challenges-derived", self.prefix, real_challenges.len()), json!({"kind": kind}));
+                    }
+                }
+            }
+        }
         let decoded = !matches!(reference, Decision::BadProof(_) | Decision::BadVerifier(_));
         let d = json!({"kind": kind, "version": format!("{version:?}"), "detail": desc,
             "real": format!("{real:?}").chars().take(80).collect::<String>(), "reference": format!("{reference:?}")});
@@ -360,5 +390,6 @@ pub fn run(tier: Tier, seed: u64) -> i32 {
     ev.floor("reference accepts", ev.bucket_get("ref.accept"), 4);
     ev.floor("gate families in honest circuits", ev.set_len("families") as u64, 6);
     ev.floor("bit flips", ev.bucket_get("kind.bit-flip"), 8064);
+    ev.floor("challenge logs compared", ev.bucket_get("challenge_logs_compared"), 3000);
     ev.finish()
 }
